@@ -204,13 +204,34 @@ def property_checks(inp):
         fr = inp["fraction"]
         dia = psf.encircled_energy(d, fraction=fr)
         A(("reported diameter is where the curve is closest to the fraction", abs(float(xs[numpy.argmin(numpy.abs(ee - fr))]) - dia), 0.0))
-        # optional centre: on a pixel centre (half-integer corner coordinates), on a pixel corner, anywhere
+        # a compact image: exactly zero outside a centred disc (a masked PSF core), all energy enclosed well before the last aperture
+        for compact in (False, True):
+            dd__ = d * pupil.circle(max(1.0, M / 2 * inp.get("support", 0.5)), M) if compact else d
+            if dd__.sum() > 0:
+                ee_variants(dd__, M, fr, inp, A, " (image zero outside a disc)" if compact else "")
+    # narrow dtypes: the same sample values give the same zoom (single-precision complex keeps its imaginary part)
+    a32 = npr.normal(size=(N, N)).astype(numpy.float32); b32 = npr.normal(size=(N, N)).astype(numpy.float32)
+    c64 = (a32 + 1j * b32).astype(numpy.complex64)
+    wantc = itp.zoom_rbs(a32.astype(float), (new2, new2), order) + 1j * itp.zoom_rbs(b32.astype(float), (new2, new2), order)
+    with warnings.catch_warnings():
+        warnings.simplefilter("ignore")
+        A(("zoom of complex64 = zoom(real) + i zoom(imag) of the same values (order %d)" % order, float(numpy.abs(itp.zoom_rbs(c64, (new2, new2), order) - wantc).max()), 1e-5))
+        A(("zoom of float32 / integer data = zoom of the same values as float64 (order %d)" % order,
+           float(max(numpy.abs(itp.zoom_rbs(a32, (new2, new2), order) - wantc.real).max(),
+                     numpy.abs(itp.zoom_rbs(img[:N, :N].astype(numpy.int32) if img.shape[0] >= N and img.shape[1] >= N else a32, (new2, new2), order)
+                               - itp.zoom_rbs(img[:N, :N].copy() if img.shape[0] >= N and img.shape[1] >= N else a32.astype(float), (new2, new2), order)).max())), 1e-5))
+    return out
+
+
+def ee_variants(d, M, fr, inp, A, suffix):
+    """optional centre: on a pixel centre (half-integer corner coordinates), on a pixel corner, anywhere"""
+    if True:
         hc = M // 2
         for cname, cen_ in (("pixel centre", (hc + 0.5 + inp.get("coff", [0, 0])[0], hc + 0.5 + inp.get("coff", [0, 0])[1])),
                             ("pixel corner", (hc + inp.get("coff", [0, 0])[0], hc + inp.get("coff", [0, 0])[1])),
                             ("generic point", (hc + inp.get("cgen", [0.3, -0.2])[0], hc + inp.get("cgen", [0.3, -0.2])[1]))):
             xs2, ee2 = psf.encircled_energy(d, center=cen_, eeDiameter=False)
-            A(("encircled energy about a %s starts at 0, never decreases, stays within [0, 1]" % cname,
+            A(("encircled energy about a %s starts at 0, never decreases, stays within [0, 1]%s" % (cname, suffix),
                float(max(abs(ee2[0]), (-numpy.diff(ee2)).max(), ee2.max() - 1, -ee2.min())), 1e-12))
             # the curve against its definition, with an indicator written here: energy inside the circle of radius r about the
             # centre, against the diameter of the disc of the same area as the enclosed pixels
@@ -224,22 +245,10 @@ def property_checks(inp):
                 ins = ((XX_ - cen_[0]) ** 2 + (YY_ - cen_[1]) ** 2) <= r_ * r_
                 dd_.append(math.sqrt(ins.sum() * 4 / math.pi)); ee_.append(float((dsub * ins).sum()))
             ref_curve = numpy.interp(numpy.linspace(0, dim_, int(4 * dim_)), numpy.array(dd_), numpy.array(ee_) / d.sum())
-            A(("encircled energy about a %s = energy inside the circle / total, against the equivalent diameter" % cname,
+            A(("encircled energy about a %s = energy inside the circle / total, against the equivalent diameter%s" % (cname, suffix),
                float(numpy.abs(ee2 - ref_curve).max()) if ee2.shape == ref_curve.shape else float("inf"), 1e-12))
             dia2 = psf.encircled_energy(d, fraction=fr, center=cen_)
-            A(("reported diameter about a %s is where the curve is closest to the fraction" % cname, abs(float(xs2[numpy.argmin(numpy.abs(ee2 - fr))]) - dia2), 0.0))
-    # narrow dtypes: the same sample values give the same zoom (single-precision complex keeps its imaginary part)
-    a32 = npr.normal(size=(N, N)).astype(numpy.float32); b32 = npr.normal(size=(N, N)).astype(numpy.float32)
-    c64 = (a32 + 1j * b32).astype(numpy.complex64)
-    wantc = itp.zoom_rbs(a32.astype(float), (new2, new2), order) + 1j * itp.zoom_rbs(b32.astype(float), (new2, new2), order)
-    with warnings.catch_warnings():
-        warnings.simplefilter("ignore")
-        A(("zoom of complex64 = zoom(real) + i zoom(imag) of the same values (order %d)" % order, float(numpy.abs(itp.zoom_rbs(c64, (new2, new2), order) - wantc).max()), 1e-5))
-        A(("zoom of float32 / integer data = zoom of the same values as float64 (order %d)" % order,
-           float(max(numpy.abs(itp.zoom_rbs(a32, (new2, new2), order) - wantc.real).max(),
-                     numpy.abs(itp.zoom_rbs(img[:N, :N].astype(numpy.int32) if img.shape[0] >= N and img.shape[1] >= N else a32, (new2, new2), order)
-                               - itp.zoom_rbs(img[:N, :N].copy() if img.shape[0] >= N and img.shape[1] >= N else a32.astype(float), (new2, new2), order)).max())), 1e-5))
-    return out
+            A(("reported diameter about a %s is where the curve is closest to the fraction%s" % (cname, suffix), abs(float(xs2[numpy.argmin(numpy.abs(ee2 - fr))]) - dia2), 0.0))
 
 
 def _int_size_ok(a, n, order):
@@ -261,7 +270,7 @@ def gen_input(rng):
     return {"n": rng.randint(1, 6), "r": rng.randint(1, 6), "c": rng.randint(1, 6), "N": rng.randint(order + 2, 12), "order": order,
             "kf": rng.randint(1, 3), "px": rng.randint(0, 5), "py": rng.randint(0, 5), "new2": rng.randint(3, 20), "M": rng.randint(4, 20),
             "cst": rng.uniform(0.1, 9), "fraction": rng.uniform(0.05, 0.95), "coff": [rng.randint(-1, 1), rng.randint(-1, 1)],
-            "cgen": [rng.uniform(-1.5, 1.5), rng.uniform(-1.5, 1.5)], "vertex": [rng.uniform(1.2, 3.8), rng.uniform(1.2, 3.8)], "data_seed": rng.getrandbits(32)}
+            "cgen": [rng.uniform(-1.5, 1.5), rng.uniform(-1.5, 1.5)], "vertex": [rng.uniform(1.2, 3.8), rng.uniform(1.2, 3.8)], "support": rng.uniform(0.25, 0.8), "data_seed": rng.getrandbits(32)}
 
 
 def falsify(ctx, deep=False):
